@@ -5,6 +5,7 @@
 //! processes (one per shard), supervises them, merges what they observed, writes the evidence and
 //! prints the verdict lines. `cairo-verif worker ...` is the worker entry point.
 
+mod casm_ref;
 mod checks;
 mod comp;
 mod corpus;
@@ -15,6 +16,7 @@ mod w2;
 mod frontend;
 mod report;
 mod rng;
+mod serde_checks;
 mod sierra_mut;
 
 use std::fs;
